@@ -42,7 +42,7 @@ def bounds(tier):
 
 def graph():
     g = rgfa.Graph()
-    seqs = {"s1": "ACG", "s2": "TTGA", "s3": "CA"}
+    seqs = {"s1": "ACG", "s1.alt": "TTGA", "s3": "CA"}  # 's1.alt' next to 's1': a name with a non-word character whose prefix is a segment too
     so = 0
     for n, q in seqs.items():
         g.add_seg(n, q, [("LN", "i", str(len(q))), ("SN", "Z", "chr1"), ("SO", "i", str(so)), ("SR", "i", "0")])
@@ -357,7 +357,8 @@ def run_shard(spec, tier, scratch):
             else:
                 cg = None
             opt = ["tp:A:P", "NM:i:3"] + ([f"cg:Z:{cg}"] if cg else []) + ["zz:Z:k_p"]
-            m = sum(int(x) for x, op in rgfa.cigar_runs(cg or "") if op == "=")
+            # column 10 of the INPUT is whatever the first aligner claimed (here: every base matches)
+            m = len(read_mid)
             bl = sum(int(x) for x, op in rgfa.cigar_runs(cg or "")) or len(read_mid)
             recs.append(rgfa.Rec(qname, len(read), qs, qe, "+", rgfa.steps_str(steps), len(seq), s, e, m, bl, 60, opt))
             info.append((len(eds), any(o == "<" for o, x in steps)))
